@@ -132,6 +132,10 @@ pub fn check_hier(c: &HCase, obs: &mut Obs) {
         Some(k) if n >= 2 => KernelType::Sparse(1 + idx(k, n - 1)),
         _ => KernelType::Dense,
     };
+    if matches!(kind, KernelType::Sparse(_)) && crate::kernel::kdtree_build_diverges(&x) {
+        obs.skip("kdtree_build_would_not_terminate");
+        return;
+    }
     let Some((kernel, _)) = obs.call("build-kernel", || build(&x, &c.method, kind, CommonNearestNeighbour::KdTree, 0)) else { return };
     // the similarity matrix *is* the input of the clustering: read it off the kernel object
     let sim = match densify(&kernel, n) {
